@@ -16,7 +16,7 @@ ASSUMPTIONS = ['the detected overlap is whatever find_best_overlap returned (rec
                'end-to-end leg: the harness run_ocr reads one glyph per 8-px column block, so part transcriptions are exact windows']
 N = {'quick': 3000, 'thorough': 150000}
 CLASSES = ['windows', 'noisy_windows', 'unrelated', 'empties', 'single_chars', 'repetitive', 'end_to_end', 'enumeration', 'astral', 'long_windows', 'blank_parts']
-REQUIRED = ['reference_merges_compared', 'long_overlap_detections_checked', 'overlap_detections_checked', 'no_logits_runs', 'merges_checked', 'steps_checked', 'zero_overlap_steps', 'positive_overlap_steps', 'disjoint_or_empty_steps', 'e2e_lines', 'e2e_split_lines']
+REQUIRED = ['near_equal_error_rate_detections_checked', 'long_windows_without_a_common_character', 'reference_merges_compared', 'long_overlap_detections_checked', 'overlap_detections_checked', 'no_logits_runs', 'merges_checked', 'steps_checked', 'zero_overlap_steps', 'positive_overlap_steps', 'disjoint_or_empty_steps', 'e2e_lines', 'e2e_split_lines']
 ALPHA = 'abcdefg '
 
 
@@ -83,6 +83,14 @@ def gen(rng, i, ctx):
             # two windows of 270 characters that share 262 of them (a very long line recognised with a short stride); rare, the scan is cubic
             text = rtext(rng, 278, 278, ALPHA)
             return {'cls': cls, 'parts': [text[:270], text[8:]], 'extra_rows': [0, 2], 'true_overlap': 262}
+        if (i // len(CLASSES)) % 80 == 27:
+            # (round 7) two windows of 300 characters in different scripts: every suffix / prefix pair is all errors, there is no overlap
+            a_ = ''.join(chr(97 + int(k)) for k in rng.integers(0, 26, size=300))
+            b_ = ''.join(chr(0xC0 + int(k)) for k in rng.integers(0, 50, size=300))
+            return {'cls': cls, 'parts': [a_, b_], 'extra_rows': [1, 0], 'long_unrelated': True}
+        if (i // len(CLASSES)) % 80 == 53:
+            # (round 7) two long, badly matching windows: two overlap lengths whose error rates differ only in the sixth digit
+            return {'cls': 'near_equal_rates', 'pair': [int(v) for v in NEAR_EQUAL[int(rng.integers(0, len(NEAR_EQUAL)))]], 'plant_seed': int(rng.integers(0, 1 << 30))}
         cls = 'windows'
     if cls == 'enumeration':
         # nearly periodic text with a long period (a list, a table column): long overlaps whose shorter candidates are almost as good
@@ -121,6 +129,43 @@ def gen(rng, i, ctx):
 
 def describe(case):
     return case
+
+
+# (overlap length, matching characters) x 2: the longer overlap has the strictly lower error rate, by less than 1e-5 relative
+NEAR_EQUAL = [(316, 15, 337, 16), (321, 20, 337, 21), (321, 16, 341, 17), (323, 23, 337, 24), (324, 19, 341, 20), (324, 17, 343, 18), (325, 27, 337, 28), (325, 18, 343, 19),
+              (326, 25, 339, 26), (331, 33, 341, 34)]
+
+
+def check_near_equal(case, mon, ctx):
+    from fractions import Fraction
+    import Levenshtein
+    loe = ctx.loe
+    I1, m1, I2, m2 = case['pair']
+    rng = np.random.default_rng(case['plant_seed'])
+    N1, L = I2 + 5, I2 + 3
+    t1 = [chr(0x4E00 + k) for k in range(N1)]
+    t2 = [chr(0x3400 + k) for k in range(L)]
+    K1 = sorted(int(k) for k in rng.choice(np.arange(60, I1 - 2), size=m1, replace=False))
+    K2 = sorted(int(k) for k in rng.choice(np.array([k for k in range(3, I2 - 2) if k not in K1]), size=m2, replace=False))
+    for k in K1:
+        t2[k] = t1[N1 - I1 + k]
+    for k in K2:
+        t2[k] = t1[N1 - I2 + k]
+    t1, t2 = ''.join(t1), ''.join(t2)
+    best, arg = Fraction(1), {0}
+    for i in range(1, min(len(t1), len(t2)) + 1):
+        c = Fraction(int(Levenshtein.distance(t1[-i:], t2[:i])), i)
+        if c < best:
+            best, arg = c, {i}
+        elif c == best and best < 1:
+            arg.add(i)
+    got = int(loe.find_best_overlap(t1, t2))
+    mon.count('near_equal_error_rate_detections_checked')
+    mon.mark_nontrivial()
+    mon.observe('overlap', got)
+    if got not in arg:
+        mon.violation('detected-overlap-has-minimum-error-rate', {'lengths': [len(t1), len(t2)], 'overlap': got, 'lengths_of_minimum_error_rate': sorted(arg), 'minimum_error_rate': '%d/%d' % (best.numerator, best.denominator),
+                      'planted': case['pair']})
 
 
 ASTRAL = '\U0001D504\U0001F600\U00020BB7\u200b'
@@ -214,7 +259,11 @@ def check(case, mon, ctx):
     loe = ctx.loe
     if case['cls'] == 'end_to_end':
         return check_e2e(case, mon, ctx)
+    if case['cls'] == 'near_equal_rates':
+        return check_near_equal(case, mon, ctx)
     parts = case['parts']
+    if case.get('long_unrelated'):
+        mon.count('long_windows_without_a_common_character')
     logits = make_logits(parts, case['extra_rows'])
     if sum(1 for p in parts if p) >= 2:
         mon.mark_nontrivial()
